@@ -74,6 +74,7 @@ def base_record(job):
     return dict(fn=job["fn"], kind=job["kind"], algo=job.get("algo", ""), mode=job["mode"],
                 n=len(job["K"]), Lm=lm_of(job["K"]), raised="", malformed="",
                 D=[], R=[], B=[], P=[], Ds=[], Din=[], lam=-1, eff=-1,
+                rows=[r + 1 for r in job.get("rows", [])],
                 diag0=1 if job["fn"].startswith("distance_") else 0)
 
 
@@ -118,7 +119,7 @@ def exec_job(job):
     for nm in TRAITS:                       # a lossy cast is the harness's fault: MachineryError, not "raised"
         arg(nm)()
     try:
-        if job["kind"] == "dist":
+        if job["kind"] in ("dist", "distbig"):
             out = call_distance(base, arg(base), mode, arg("distance_wei"))
         elif job["kind"] == "agree":
             out = [call_distance(nm, arg(nm), mode, arg("distance_wei"))[0] for nm in job["routines"]]
@@ -153,14 +154,14 @@ def exec_job(job):
         rec["raised"] = encode.exc_name(e)
         return rec
     try:
-        if job["kind"] == "dist":
+        if job["kind"] in ("dist", "distbig"):
             D, R, B, P = out
             rec["D"] = mat_len(D, mode)
             if R is not None:
                 rec["R"] = encode.mat_int(np.asarray(R).astype(float))
             if B is not None:
                 rec["B"] = encode.mat_int(B)
-            if P is not None:
+            if P is not None and job["kind"] == "dist":
                 rec["P"] = encode.mat_int(np.asarray(P) + 1)
         elif job["kind"] == "agree":
             rec["Ds"] = [mat_len(D, mode) for D in out]
@@ -267,6 +268,88 @@ def jobs_for(K, mode, src, rng=None, variant=rc.PLAIN):
     return out
 
 
+# ------------------------------------------------ scale-regime inputs (shared with c12)
+# Besides "all small inputs" every check visits a handful of inputs from the other regimes of
+# SCALE: more nodes than a narrow integer type can index or count (int8: 127, uint8: 255), paths
+# of more hops than that, walk counts beyond 2^63 and beyond float32 (3.4e38), path totals beyond
+# the exact range of float32 (2^24).  The verdicts stay TLC's (Trace_Distance: Big records).
+BIG_KINDS = ("ring+chords", "chain", "clique+path", "grid")
+# code sets per mode for the big inputs: the tie-rich small set, a single value, and a WIDE set whose
+# path totals (up to ~4e8, still < INF and exact in float64) leave the exact range of float32/int16
+BIG_CODES = {"bin": [[1]], "len": [[1, 2, 3], [1], [1, 3, 5, 1048577]],
+             "inv": [[1, 2, 4], [2], [1, 4, 1048576]]}
+
+
+def big_support(rng, nmin, nmax, und=None, kinds=BIG_KINDS, p_split=0.3):
+    """-> (name, n, connections, und): ring with chords, long chain (few chords), clique with a long
+    path attached, grid; optionally cut into two components; directed variants keep every
+    connection forwards and add the reverse with probability 1/4 (a directed ring has shortest
+    paths of up to n-1 hops); numbering shuffled with probability 0.6."""
+    kind = rng.choice(kinds)
+    n = rng.randint(nmin, nmax)
+    if und is None:
+        und = rng.random() < 0.6
+    if kind == "ring+chords":
+        E = [(i, (i + 1) % n) for i in range(n)]
+        E += [tuple(rng.sample(range(n), 2)) for _ in range(rng.randint(3, n // 4))]
+    elif kind == "chain":
+        E = [(i, i + 1) for i in range(n - 1)]
+        E += [tuple(rng.sample(range(n), 2)) for _ in range(rng.choice([0, 0, 2, 5]))]
+    elif kind == "clique+path":
+        m = rng.randint(8, 24)
+        E = [(a, b) for a in range(m) for b in range(a + 1, m)] + [(x, x + 1) for x in range(m - 1, n - 1)]
+    else:
+        a = rng.randint(8, 17)
+        b = rng.randint(-(-nmin // a), nmax // a)
+        n = a * b
+        E = [(r * b + c, r * b + c + 1) for r in range(a) for c in range(b - 1)] + \
+            [(r * b + c, (r + 1) * b + c) for r in range(a - 1) for c in range(b)]
+    name = kind
+    if rng.random() < p_split:
+        cut = rng.randint(n // 3, 2 * n // 3)
+        E = [(x, y) for x, y in E if (x < cut) == (y < cut)]
+        name += "/split"
+    perm = list(range(n))
+    if rng.random() < 0.6:
+        rng.shuffle(perm)
+        name += "/shuffled"
+    if und:
+        E = sorted(set(tuple(sorted((perm[x], perm[y]))) for x, y in E))
+    else:
+        A = set()
+        for x, y in E:
+            A.add((perm[x], perm[y]))
+            if rng.random() < 0.25:
+                A.add((perm[y], perm[x]))
+        E = sorted(A)
+    return name, n, E, und
+
+
+def clique_path(rng, m, L, joined=True, copies=1):
+    """clique of m nodes + path of L nodes (joined by one connection or not), `copies` disjoint
+    copies, shuffled numbering -> (n, undirected edge list)"""
+    one = [(a, b) for a in range(m) for b in range(a + 1, m)] + [(x, x + 1) for x in range(m, m + L - 1)]
+    if joined:
+        one.append((0, m))
+    n = (m + L) * copies
+    perm = list(range(n))
+    rng.shuffle(perm)
+    E = [(a + c * (m + L), b + c * (m + L)) for c in range(copies) for a, b in one]
+    return n, sorted(set(tuple(sorted((perm[a], perm[b]))) for a, b in E))
+
+
+def big_dtype(rng, mode, codes, floats_first):
+    """argument dtype/layout draw for a big input: the integer types that hold every code
+    (int8/int16 included where the routine converts to float first), float64 otherwise"""
+    if mode == "inv":
+        fam = ("float64",)
+    elif max(codes) <= 3:
+        fam = ("float64", "int64", "int32") + (("int16", "int8", "uint8") if floats_first else ())
+    else:
+        fam = ("float64", "int64", "int32")
+    return rng.choice(fam), rng.choice(rc.LAYOUTS)
+
+
 MODES = ["bin", "len", "inv", "log"]
 
 
@@ -336,22 +419,41 @@ def build_jobs(ctx):
         mode = rng.choice(MODES)
         K = code_matrix(rng, n, edges, und, mode, loops=rng.choice([0, 0, 0, 1]), codes=draw_codes(rng, mode))
         jobs += jobs_for(K, mode, "struct-" + name, rng, rc.draw_variant(rng, dtype_family(mode, K), p_plain=0.3))
-    # a dense part next to a long sparse part (clique + path, optionally joined, shuffled numbering,
-    # ~50 nodes): walk counts explode in the clique while the path keeps power iterations going -
-    # the stress case for counting / matrix-power implementations (binary distances only)
-    # (thorough tier only: judging one 50-node record against the L0 distance definition costs TLC
-    #  about 40 s; the quick tier has the same family in C16, where only finiteness is judged)
-    for k in range(0 if q else 4):
-        m, L = rng.randint(15, 17), rng.randint(34, 38)
-        n = m + L
-        perm = list(range(n))
-        rng.shuffle(perm)
-        edges = [(a, b) for a in range(m) for b in range(a + 1, m)] + [(x, x + 1) for x in range(m, n - 1)]
-        if k % 2:
-            edges.append((0, m))
-        edges = [tuple(sorted((perm[a], perm[b]))) for a, b in edges]
+    # ---- scale regime 1: a dense part next to a long sparse part (clique of 12..30 + path of 36..80
+    #      nodes, joined or as two components, or two disjoint copies; shuffled numbering; 50..110
+    #      nodes): walk counts explode in the clique (beyond 2^63 and beyond float32's 3.4e38, still
+    #      far below float64's 1.8e308) while the path keeps the power iterations going - the stress
+    #      case for counting / matrix-power implementations (binary distances, all ten calls).
+    #      Judged with the BFS-by-levels oracle (Trace_Distance!DistOf, mc: FastOracleInv).
+    joins = [True, False] * (2 if q else 5)           # both kinds in every run, order from the RNG
+    rng.shuffle(joins)
+    for k in range(3 if q else 10):
+        while True:
+            m, L = rng.randint(12, 30), rng.randint(36, 80)
+            copies = 2 if rng.random() < 0.25 else 1
+            if (m + L) * copies <= 110:
+                break
+        n, edges = clique_path(rng, m, L, joined=joins[k], copies=copies)
         K = code_matrix(rng, n, edges, True, "bin")
-        jobs += jobs_for(K, "bin", "clique+path")
+        jobs += [dict(j, big=1) for j in jobs_for(K, "bin", "clique+path", rng)]
+    # ---- scale regime 2: 130..300 (thorough: ..400) nodes - more than an int8 / uint8 index or hop
+    #      counter holds -, rings with chords, long chains, clique + path, grids, cut into two components
+    #      or not, directed or not; lengths {1,2,3}, one value, or a wide set whose path totals leave
+    #      the exact range of float32; 'inv' weights down to 2^-20.  distance_wei and distance_wei_floyd,
+    #      judged row by row by the one-pass equation that only the true distance row solves
+    #      (Distance!IsDistRow; hop counts for a drawn sample of sources: Distance!MinHopsRow).
+    for lo, hi in ([(130, 200), (257, 300)] if q else [(130, 160), (161, 256), (257, 300), (301, 400)] * 2):
+        name, n, edges, und = big_support(rng, lo, hi)
+        mode = rng.choice(["len", "len", "inv", "bin"])
+        codes = rng.choice(BIG_CODES[mode])
+        K = code_matrix(rng, n, edges, und, mode, codes=codes)
+        rows = sorted(set([0, n - 1] + rng.sample(range(n), 4)))
+        for fn in ("distance_wei", "distance_wei_floyd"):
+            floyd = fn == "distance_wei_floyd"
+            dt, lay = big_dtype(rng, mode, codes, floyd and TRANSFORM[mode] is None)
+            jobs.append(dict(fn=fn + (":" + {"bin": "none", "len": "none", "inv": "inv"}[mode] if floyd else ""),
+                             kind="distbig", algo=ALGO[fn], mode=mode, K=K, src_kind="big-" + name, rows=rows,
+                             dtype=arg_dtype(fn, dt, mode), draw=dt, layout=lay, big=1))
     return jobs
 
 
@@ -363,13 +465,26 @@ def what(job, rec, clause):
         " options=%s" % opt if opt else "")
 
 
+def run_all(jobs, modname=__name__):
+    """the real calls; scale-regime jobs (50..400 nodes) get a longer per-call limit"""
+    small = [k for k, j in enumerate(jobs) if not j.get("big")]
+    big = [k for k, j in enumerate(jobs) if j.get("big")]
+    recs = [None] * len(jobs)
+    for idx, limit in ((small, 20.0), (big, 240.0)):
+        if idx:
+            for k, r in zip(idx, pool.run_jobs(modname, [jobs[k] for k in idx], limit=limit)):
+                recs[k] = r
+    return recs
+
+
 def run(ctx):
     ctx.mc("MC_Distance.tla", "MC_Distance_c03.cfg" if ctx.quick else "MC_Distance_c03_thorough.cfg")
     jobs = build_jobs(ctx)
-    recs = pool.run_jobs(__name__, jobs)
+    recs = run_all(jobs)
     verdicts = ctx.validate(TLA, CFG, recs)
     ctx.judge(jobs, rc.tag_failures(ctx, jobs, recs, verdicts), verdicts, what)
     ctx.extra["argument_variants"] = rc.variant_counts(jobs)
+    ctx.extra["scale_regime_records"] = sum(1 for j in jobs if j.get("big"))
     seen = set()
     for j, r in zip(jobs, recs):
         if r.get("kind") == "dist" and not r.get("raised") and not r.get("malformed"):
@@ -395,7 +510,13 @@ def run(ctx):
             if j["kind"] == kind and j["mode"] != "bin" and len(j["K"]) == 4:
                 ctx.add_sample("model-input:" + j["fn"], dict(job=j, record=r))
                 break
-    ctx.add_sample("random-input", dict(job=jobs[-1], record=recs[-1]))
+    last = max(k for k, j in enumerate(jobs) if not j.get("big"))
+    ctx.add_sample("random-input", dict(job=jobs[last], record=recs[last]))
+    for j, r in zip(jobs, recs):
+        if j.get("big"):                                # matrices of 50..400 nodes: sizes only
+            ctx.add_sample("scale-regime-input", dict(fn=j["fn"], kind=j["kind"], n=r.get("n"), mode=j["mode"],
+                                                      source=j.get("src_kind"), dtype=j.get("dtype"),
+                                                      layout=j.get("layout")), limit=12)
     ctx.assumptions += [
         "TLC evaluates the L0 definitions (Dist by min-plus fixpoint, cross-checked against enumerated simple "
         "paths on all small inputs) correctly",
@@ -414,9 +535,14 @@ def run(ctx):
 
 def replay(ctx, rp):
     job = rp["job"]
-    recs = pool.run_jobs(__name__, [job])
+    recs = run_all([job])
     verdicts = ctx.validate(TLA, CFG, recs)
     core.log("replay verdict:", verdicts[0])
+    if job.get("big"):                                  # 50..400 nodes: the matrices stay in the replay file
+        core.log("  input:", what(job, recs[0], verdicts[0][0]))
+        core.log("  observed:", {k: recs[0][k] for k in ("lam", "eff", "raised", "malformed") if recs[0].get(k) not in ("", -1)})
+        ctx.judge([job], recs, verdicts, what)
+        return ctx.finish()
     core.log("  input code matrix K (-1 = no connection, mode %s): %s" % (job["mode"], job["K"]))
     core.log("  observed:", {k: recs[0][k] for k in ("D", "R", "B", "Ds", "Din", "lam", "eff", "raised", "malformed")
                              if recs[0].get(k) not in ([], "", -1)})
